@@ -92,7 +92,13 @@ func C26(c *Ctx) {
 	}
 	c.Floor(r1, n, 12, "catalog accesses")
 	for _, h := range []string{"Cluster.findOverlapLocked", "Cluster.rebuildRegionIndexLocked"} {
-		hf := c.Fn("pd/core", h)
+		hf := c.FnOpt("pd/core", h)
+		if hf == nil && h == "Cluster.findOverlapLocked" {
+			continue // inlined into its caller: the accesses are checked there
+		}
+		if hf == nil {
+			hf = c.Fn("pd/core", h)
+		}
 		if hf == nil {
 			continue
 		}
@@ -121,36 +127,88 @@ func C26(c *Ctx) {
 			}
 			c.Decide(g1, r2, key(fn, fmt.Sprintf("insert[%d]<-!isEpochStale", i+1)), st.Pos(), 2, "a stale heartbeat never reaches the insert", "the insert is reachable for an epoch-stale heartbeat")
 			g2 := notReachableFromOkEdge(fn, Named("pd/core.(*Cluster).findOverlapLocked"), st)
+			if !g2 && len(Calls(fn, false, Named("pd/core.(*Cluster).findOverlapLocked"))) == 0 {
+				// the overlap scan inlined: the insert is not reachable from the true edge of rangesOverlap
+				g2 = notReachableFromTrueEdge(fn, Named("pd/core.rangesOverlap"), st)
+			}
 			c.Decide(g2, r2, key(fn, fmt.Sprintf("insert[%d]<-!overlap", i+1)), st.Pos(), 2, "an overlapping heartbeat never reaches the insert", "the insert is reachable for a region that overlaps another known region")
 		}
 	}
-	if fn := c.Fn("pd/core", "isEpochStale"); fn != nil {
-		ops := []string{}
-		AllInstrs(fn, false, func(in ssa.Instruction) {
-			if bo, ok := in.(*ssa.BinOp); ok {
-				switch bo.Op {
-				case token.LSS, token.LEQ, token.GTR, token.GEQ, token.EQL, token.NEQ:
-					ops = append(ops, fieldNameOf(bo.X)+bo.Op.String()+fieldNameOf(bo.Y))
+	if fn := c.Fn("pd/core", "isEpochStale"); fn != nil && len(fn.Params) >= 2 {
+		// decided by order-sign evaluation over the 9 orderings of (Version, ConfVersion)
+		role := func(v ssa.Value) string {
+			if p, f, ok := paramField(v); ok {
+				who := map[*ssa.Parameter]string{fn.Params[0]: "in", fn.Params[1]: "cur"}[p]
+				if who != "" && (f == "Version" || f == "ConfVersion") {
+					return who + "." + f
 				}
 			}
-		})
-		want := "Version<Version,Version==Version,ConfVersion<ConfVersion"
-		c.Decide(strings.Join(ops, ",") == want, r2, key(fn, "operators"), fn.Pos(), len(ops)+1, "stale iff version lower, or equal version and lower conf version", "isEpochStale compares {"+strings.Join(ops, ",")+"}, expected {"+want+"}")
-	}
-	if fn := c.Fn("pd/core", "rangesOverlap"); fn != nil {
-		leq := 0
-		AllInstrs(fn, false, func(in ssa.Instruction) {
-			if bo, ok := in.(*ssa.BinOp); ok && bo.Op == token.LEQ {
-				if call, ok := bo.X.(*ssa.Call); ok && Named("bytes.Compare")(call.Common()) {
-					if fieldNameOf(call.Call.Args[0]) == "EndKey" && fieldNameOf(call.Call.Args[1]) == "StartKey" {
-						leq++
+			return ""
+		}
+		bad := ""
+		for _, dv := range []int{-1, 0, 1} {
+			for _, dc := range []int{-1, 0, 1} {
+				signs := map[string]int{}
+				SetSign(signs, "in.Version", "cur.Version", dv)
+				SetSign(signs, "in.ConfVersion", "cur.ConfVersion", dc)
+				want := dv < 0 || (dv == 0 && dc < 0)
+				got := (&SignEnv{Role: role, Signs: signs, Depth: 1}).ReturnValue(fn, 0)
+				if (got == True) != want || got == Unknown {
+					if bad == "" {
+						bad = fmt.Sprintf("Version cmp=%d ConfVersion cmp=%d: answers %s, want %v", dv, dc, triName(got), want)
 					}
 				}
 			}
-		})
-		c.Decide(leq == 2, r2, key(fn, "end<=start⇒disjoint(x2)"), fn.Pos(), leq+1, "half-open disjointness test in both directions", fmt.Sprintf("expected two `Compare(EndKey, StartKey) <= 0` tests, found %d", leq))
+		}
+		c.Decide(bad == "", r2, key(fn, "operators"), fn.Pos(), 10, "stale iff version lower, or equal version and lower conf version (9 orderings evaluated)", "isEpochStale decides wrongly for "+bad)
 	}
-	if fn := c.Fn("pd/core", "Cluster.findOverlapLocked"); fn != nil {
+	if fn := c.Fn("pd/core", "rangesOverlap"); fn != nil && len(fn.Params) >= 2 {
+		// decided by order-sign evaluation: overlap iff neither range ends at or before the other's start
+		var role func(v ssa.Value) string
+		role = func(v ssa.Value) string {
+			if call, ok := Unwrap(v).(*ssa.Call); ok {
+				if bi, ok := call.Call.Value.(*ssa.Builtin); ok && bi.Name() == "len" && len(call.Call.Args) == 1 {
+					if r := role(call.Call.Args[0]); r != "" {
+						return "len(" + r + ")"
+					}
+				}
+				return ""
+			}
+			if p, f, ok := paramField(v); ok {
+				who := map[*ssa.Parameter]string{fn.Params[0]: "a", fn.Params[1]: "b"}[p]
+				if who != "" && (f == "StartKey" || f == "EndKey") {
+					return who + "." + f
+				}
+			}
+			return ""
+		}
+		bad, n := "", 0
+		for _, la := range []int{0, 1} {
+			for _, lb := range []int{0, 1} {
+				for _, ab := range []int{-1, 0, 1} { // a.End ? b.Start
+					for _, ba := range []int{-1, 0, 1} { // b.End ? a.Start
+						signs := map[string]int{}
+						SetSign(signs, "len(a.EndKey)", "0", la)
+						SetSign(signs, "len(b.EndKey)", "0", lb)
+						SetSign(signs, "a.EndKey", "b.StartKey", ab)
+						SetSign(signs, "b.EndKey", "a.StartKey", ba)
+						want := !((la == 1 && ab <= 0) || (lb == 1 && ba <= 0))
+						got := (&SignEnv{Role: role, Signs: signs, Depth: 1}).ReturnValue(fn, 0)
+						n++
+						if ((got == True) != want || got == Unknown) && bad == "" {
+							bad = fmt.Sprintf("a.End set=%v b.End set=%v a.End?b.Start=%d b.End?a.Start=%d: answers %s, want %v", la == 1, lb == 1, ab, ba, triName(got), want)
+						}
+					}
+				}
+			}
+		}
+		c.Decide(bad == "", r2, key(fn, "end<=start⇒disjoint(x2)"), fn.Pos(), n+1, "half-open disjointness test in both directions (36 orderings evaluated)", "rangesOverlap decides wrongly for "+bad)
+	}
+	fol := c.FnOpt("pd/core", "Cluster.findOverlapLocked")
+	if fol == nil {
+		fol = c.Fn("pd/core", "Cluster.UpsertRegionHeartbeat") // inlined
+	}
+	if fn := fol; fn != nil {
 		need(c, r2, fn, false, "rangesOverlap", Named("pd/core.rangesOverlap"), 1)
 		// skips only the region's own id
 		self := false
@@ -165,53 +223,77 @@ func C26(c *Ctx) {
 	const r2b = "K2.well-formed-range-precondition"
 	c.Rule(r2b, "rangesOverlap and the index lookup assume start < end for bounded regions; Cluster.UpsertRegionHeartbeat establishes it: every store into Cluster.regions is preceded by a rejecting test `len(EndKey) > 0 && Compare(StartKey, EndKey) >= 0` (or the mirrored form) on the incoming meta")
 	if fn := c.Fn("pd/core", "Cluster.UpsertRegionHeartbeat"); fn != nil {
-		guard := false
-		for _, b := range fn.Blocks {
-			ifi := ifOf(b)
-			if ifi == nil {
-				continue
+		// decided by order-sign evaluation: for a bounded region with start >= end no store into the
+		// catalog is reachable – the test may sit in UpsertRegionHeartbeat or in a validation helper
+		// whose error is checked before the store
+		var role func(v ssa.Value) string
+		role = func(v ssa.Value) string {
+			v = Unwrap(v)
+			if call, ok := v.(*ssa.Call); ok {
+				if bi, ok := call.Call.Value.(*ssa.Builtin); ok && bi.Name() == "len" && len(call.Call.Args) == 1 {
+					if r := role(call.Call.Args[0]); r != "" {
+						return "len(" + r + ")"
+					}
+				}
+				return ""
 			}
-			bo, ok := ifi.Cond.(*ssa.BinOp)
-			if !ok {
-				continue
+			switch fieldNameOf(v) {
+			case "StartKey":
+				return "start"
+			case "EndKey":
+				return "end"
 			}
-			op := bo.Op
-			call, isCall := bo.X.(*ssa.Call)
-			if !isCall {
-				call, isCall = bo.Y.(*ssa.Call)
-				op = flipOp(op)
-			}
-			if !isCall || !Named("bytes.Compare")(call.Common()) {
-				continue
-			}
-			a, bb := fieldNameOf(call.Call.Args[0]), fieldNameOf(call.Call.Args[1])
-			rejectsEdge := -1
-			switch {
-			case a == "StartKey" && bb == "EndKey" && op == token.GEQ:
-				rejectsEdge = 0
-			case a == "StartKey" && bb == "EndKey" && op == token.LSS:
-				rejectsEdge = 1
-			case a == "EndKey" && bb == "StartKey" && op == token.LEQ:
-				rejectsEdge = 0
-			case a == "EndKey" && bb == "StartKey" && op == token.GTR:
-				rejectsEdge = 1
-			}
-			if rejectsEdge < 0 {
-				continue
-			}
-			// the rejecting edge returns a non-nil error and no region store is reachable from it
-			stores := fieldMapUpdates(fn, "pd/core.Cluster", "regions")
-			bad := false
+			return ""
+		}
+		stores := fieldMapUpdates(fn, "pd/core.Cluster", "regions")
+		rejected := func(cmp int) bool {
+			signs := map[string]int{}
+			SetSign(signs, "len(end)", "0", 1)
+			SetSign(signs, "len(start)", "0", 1)
+			SetSign(signs, "start", "end", cmp)
+			env := &SignEnv{Role: role, Signs: signs, Depth: 1}
+			direct := len(stores) > 0
 			for _, st := range stores {
-				if blockReaches(b.Succs[rejectsEdge], st.Block()) {
-					bad = true
+				if env.Reaches(fn, st) {
+					direct = false
 				}
 			}
-			if !bad && onlyErrorReturns(fn, b.Succs[rejectsEdge]) {
-				guard = true
+			if direct {
+				return true
 			}
+			for _, st := range stores {
+				for _, h := range rejectionHelpers(c, fn, st) {
+					henv := &SignEnv{Role: role, Signs: signs, Depth: 1}
+					rs := henv.ReachableReturns(h)
+					all := len(rs) > 0
+					ei := ErrorResultIndex(h)
+					for _, r := range rs {
+						if !ProvablyNonNil(RetVal(r, ei), r, 0) {
+							all = false
+						}
+					}
+					if all {
+						return true
+					}
+				}
+			}
+			return false
 		}
-		c.Decide(guard, r2b, key(fn, "rejects:start>=end"), fn.Pos(), 2, "a bounded region with start >= end is refused before it can be stored", "UpsertRegionHeartbeat stores a region without checking start < end: an empty or inverted range passes the overlap test against every neighbour and then shadows the real owner in GetRegionByKey (keys of a known region become unroutable)")
+		accepted := func() bool {
+			signs := map[string]int{}
+			SetSign(signs, "len(end)", "0", 1)
+			SetSign(signs, "len(start)", "0", 1)
+			SetSign(signs, "start", "end", -1)
+			env := &SignEnv{Role: role, Signs: signs, Depth: 1}
+			for _, st := range stores {
+				if env.Reaches(fn, st) {
+					return true
+				}
+			}
+			return false
+		}
+		guard := rejected(0) && rejected(1) && accepted()
+		c.Decide(guard, r2b, key(fn, "rejects:start>=end"), fn.Pos(), 4, "a bounded region with start >= end is refused before it can be stored", "UpsertRegionHeartbeat stores a region without checking start < end: an empty or inverted range passes the overlap test against every neighbour and then shadows the real owner in GetRegionByKey (keys of a known region become unroutable)")
 	}
 
 	const r2c = "K1.catalog-change-and-persistence-are-one-step"
@@ -694,4 +776,53 @@ func callersOfSave(c *Ctx) []*ssa.Function {
 		}
 	}
 	return out
+}
+
+// paramField: v is a read of field f of the struct-typed parameter p (value parameter spilled to
+// a local, or accessed directly).
+func paramField(v ssa.Value) (*ssa.Parameter, string, bool) {
+	v = Unwrap(v)
+	switch x := v.(type) {
+	case *ssa.Field:
+		if p, ok := x.X.(*ssa.Parameter); ok {
+			_, f, _ := FieldOf(x)
+			return p, f, true
+		}
+		if p, _, ok := paramField(x.X); ok {
+			_, f, _ := FieldOf(x)
+			return p, f, true
+		}
+	case *ssa.UnOp:
+		if x.Op != token.MUL {
+			return nil, "", false
+		}
+		fa, ok := x.X.(*ssa.FieldAddr)
+		if !ok {
+			return nil, "", false
+		}
+		_, f, _ := FieldOf(fa)
+		base := fa.X
+		for {
+			if inner, ok := base.(*ssa.FieldAddr); ok {
+				base = inner.X
+				continue
+			}
+			break
+		}
+		switch b := base.(type) {
+		case *ssa.Parameter:
+			return b, f, true
+		case *ssa.Alloc:
+			if b.Referrers() != nil {
+				for _, r := range *b.Referrers() {
+					if st, ok := r.(*ssa.Store); ok && st.Addr == b {
+						if p, ok := st.Val.(*ssa.Parameter); ok {
+							return p, f, true
+						}
+					}
+				}
+			}
+		}
+	}
+	return nil, "", false
 }
